@@ -275,6 +275,33 @@ theorem foldl_max_lt (l : List Nat) (a x : Nat) (ha : a < x) (hl : ∀ m ∈ l, 
     · exact Nat.max_lt.mpr ⟨ha, hl b (by simp)⟩
     · intro m hm; exact hl m (by simp [hm])
 
+/-! ### the verdict does not depend on the mode -/
+
+/-- **the verdict of the up-to-date check is the same in every mode**: `dry` only decides whether the
+check may WRITE (`--status`, `--dry` and `--list --json` run it dry, a normal run does not) -/
+theorem isUpToDate_verdict_dry (t : Task) (now : Nat) (s : State) :
+    (isUpToDate H pr t true now s).2 = (isUpToDate H pr t false now s).2 := by
+  have hsrc : (srcCheck H pr t true now s).2 = (srcCheck H pr t false now s).2 := by
+    unfold srcCheck
+    cases t.method with
+    | checksum => simp only [sumCheck_result]
+    | timestamp => simp only [tsCheck_result]
+    | none => rfl
+  unfold isUpToDate
+  simp only
+  cases t.sources.isEmpty <;> cases t.status.isEmpty <;> simp [hsrc]
+
+/-- `--list --json` with the repaired wiring (`listDry`): the bits are the verdicts of the checks on the
+state it started from, task by task -/
+theorem listJson_bits (h : cfg.listDry = true) (now : Nat) (ts : List Task) (s : State) (acc : List Bool) :
+    (listJson cfg H pr now ts s acc).2 = acc ++ ts.map (fun t => (isUpToDate H pr t true now s).2) := by
+  induction ts generalizing acc with
+  | nil => simp [listJson]
+  | cons t ts ih =>
+    simp only [listJson, h, isUpToDate_dry]
+    rw [ih]
+    simp
+
 /-! ### the body -/
 
 /-- a body that exits `ok` went through the whole command loop and left the stores alone -/
